@@ -15,6 +15,10 @@ type Quirks struct {
 	// data reads in [PC, PC+len-1] (compared without wraparound) and writes
 	// into that range are dropped.
 	Im0ExecutesAtPC bool
+	// Im0NoOverlay (only with Im0ExecutesAtPC): the same root cause - the supplied instruction is fetched through PC -
+	// without the side effects of the memory overlay: data reads and writes of the instruction go to the real memory
+	// everywhere. A tree that has lost those side effects but still advances PC shows this facet of the finding.
+	Im0NoOverlay bool
 }
 
 // overlay is the bus seen by a mode-0 instruction under Im0ExecutesAtPC.
@@ -82,7 +86,11 @@ func Accept(s *State, b Bus, req Request, q Quirks) (accepted bool, in Info) {
 			// the finding includes the order: the instruction runs with the flip-flops still set
 			// (visible when the wrapped overlay lets a program instruction such as LD A,I run instead)
 			s.IFF1, s.IFF2 = true, iff2
-			m.b = &overlay{base: b, start: s.PC, end: s.PC + uint16(len(req.Data)-1), data: req.Data}
+			if q.Im0NoOverlay {
+				m.data, m.dataAdvance = req.Data, true
+			} else {
+				m.b = &overlay{base: b, start: s.PC, end: s.PC + uint16(len(req.Data)-1), data: req.Data}
+			}
 			m.exec()
 		} else {
 			m.data = req.Data
